@@ -193,6 +193,113 @@ pub fn check_big_set(c: &BigSet, st: &mut Stats, shard: usize) -> Check {
     Ok(())
 }
 
+/// Counts walked across the widths of their serialisation: one covenant hash holding N coins with N around 250/251
+/// (one-byte vs three-byte varint) and 255/256, on a network where counts are active from genesis; coins are then spent
+/// one to six at a time, and created again, with a recount after every batch and seal.
+#[derive(Clone, Debug, serde::Serialize, serde::Deserialize)]
+pub struct CountWalk {
+    pub n: u16,
+    pub steps: Vec<(u8, bool)>,
+}
+
+pub fn arb_count_walk() -> impl proptest::strategy::Strategy<Value = CountWalk> {
+    use proptest::prelude::*;
+    (prop_oneof![248u16..262, 505u16..518, Just(251), Just(256)], proptest::collection::vec((1u8..7, any::<bool>()), 2..8)).prop_map(|(n, steps)| CountWalk { n, steps })
+}
+
+pub fn check_count_walk(c: &CountWalk, st: &mut Stats, shard: usize) -> Check {
+    use crate::world::{CovSpec, GenesisSpec};
+    use melstructs::{CoinData, CoinID, CoinValue, Denom, NetID, Transaction, TxKind};
+    st.eval();
+    let t = CovSpec::True;
+    let other = CovSpec::SigNew(2);
+    let out = |cov: &CovSpec, v: u128| CoinData { covhash: cov.hash(), value: CoinValue(v), denom: Denom::Mel, additional_data: Default::default() };
+    // the genesis coin sits under another covenant, so that the walked hash holds exactly the fanned-out coins
+    let g = GenesisSpec { net: NetID::Custom02, init: out(&other, 1 << 90), init_cov: other.clone(), fee_pool: 0, fee_mult: 100, stakes: vec![] };
+    let mut w = World::new(g, shard);
+    let fee = 1u128 << 30;
+    let unit = 1u128 << 40;
+    let mut carry = (CoinID::zero_zero(), 1u128 << 90);
+    let mut coins: Vec<CoinID> = vec![];
+    let mut left = c.n as usize;
+    while left > 0 {
+        let k = left.min(254);
+        let mut f = Transaction::new(TxKind::Normal);
+        f.inputs = vec![carry.0];
+        f.covenants = vec![other.bytes().into()];
+        for _ in 0..k {
+            f.outputs.push(out(&t, unit));
+        }
+        let change = carry.1 - unit * k as u128 - fee;
+        f.outputs.push(out(&other, change));
+        f.fee = CoinValue(fee);
+        f.sigs = vec![crate::world::sk(2).sign(&f.hash_nosigs().0 .0).into()];
+        let h = f.hash_nosigs();
+        if !matches!(w.apply_batch(std::slice::from_ref(&f)), O::Ok(())) {
+            st.exclude("fan-out-rejected");
+            return Ok(());
+        }
+        for i in 0..k {
+            coins.push(CoinID::new(h, i as u8));
+        }
+        carry = (CoinID::new(h, k as u8), change);
+        left -= k;
+        check_counts(&w.snap(), "after-fan-out-count-walk")?;
+    }
+    if !matches!(w.seal(None), O::Ok(_)) {
+        return Ok(());
+    }
+    check_counts(&w.snap(), "after-seal-count-walk")?;
+    for (k, recreate) in c.steps.iter() {
+        let k = (*k as usize).min(coins.len());
+        if k == 0 {
+            break;
+        }
+        let spent: Vec<CoinID> = coins.drain(..k).collect();
+        let mut sp = Transaction::new(TxKind::Normal);
+        sp.inputs = spent;
+        sp.covenants = vec![t.bytes().into()];
+        let total = unit * k as u128 - fee;
+        if *recreate {
+            // two coins come back under the walked hash
+            sp.outputs.push(out(&t, total / 2));
+            sp.outputs.push(out(&t, total - total / 2));
+        } else {
+            sp.outputs.push(out(&other, total));
+        }
+        sp.fee = CoinValue(fee);
+        let h = sp.hash_nosigs();
+        match w.apply_batch(std::slice::from_ref(&sp)) {
+            O::Ok(()) => {
+                if *recreate {
+                    coins.push(CoinID::new(h, 0));
+                    coins.push(CoinID::new(h, 1));
+                }
+            }
+            O::Rejected(_) => {
+                st.exclude("walk-spend-rejected");
+                return Ok(());
+            }
+            O::Panicked(p) => viol!("count-update-panicked", "spending {} of {} coins of one covenant hash panicked: {}", k, coins.len() + k, p.message),
+        }
+        check_counts(&w.snap(), "after-batch-count-walk")?;
+        st.class(match coins.len() {
+            0..=250 => "walked-count-up-to-250",
+            251..=255 => "walked-count-251-to-255",
+            _ => "walked-count-256-or-more",
+        });
+        if c.n % 2 == 0 {
+            match w.seal(None) {
+                O::Ok(_) => check_counts(&w.snap(), "after-seal-count-walk")?,
+                O::Panicked(p) => viol!("count-update-panicked", "sealing panicked with {} coins under one covenant hash: {}", coins.len(), p.message),
+                _ => return Ok(()),
+            }
+        }
+    }
+    st.nontrivial(h64(format!("{:?}", c).as_bytes()));
+    Ok(())
+}
+
 pub fn run(ctx: &Ctx) -> (Outcome, String, Option<bool>) {
     let mut p = profile();
     if ctx.thorough() {
@@ -200,6 +307,7 @@ pub fn run(ctx: &Ctx) -> (Outcome, String, Option<bool>) {
         p.max_txs = 10;
     }
     let mut out = super::hist::run_histories(ctx, "histories", p, ctx.scale(900, 9000), C20::default);
+    out.absorb(crate::runner::run_sharded(ctx, "count-walk", ctx.scale(12, 120), arb_count_walk, |c, st, shard| check_count_walk(c, st, shard)));
     out.absorb(crate::runner::run_sharded(ctx, "large-coin-set-at-activation", ctx.scale(3, 24), arb_big_set, |c, st, shard| check_big_set(c, st, shard)));
     out.absorb(super::hist::run_sampled_heights(ctx, &profile(), ctx.scale(250, 2500), C20::default));
     let rule = "Also: the first phase's kind of histories on mainnet/testnet (85%) started at a height sampled anywhere below 2 000 000 (TIP-906 barrier crossed honestly first). Second phase: testnet chains whose first block fans the genesis coin out into 240-1000 coins under 1-5 interleaved covenant hashes (plus faucet markers), sealed forward to height 499 and across the activation; counts compared with a recount at 499, at 500, after a batch and after a seal. First phase: generated histories on Custom02/Custom08 (TIP-906 active from genesis) and Testnet (26%; a share of them fast-forwarded with empty blocks to just below height 500 so that the activation is crossed with coins in place) and Mainnet (12%; height jumps land one block below 830 000 and the activation is crossed honestly): all transaction kinds, child-first batches, pool settlements, proposer rewards, faucet markers. Oracle: invariant read through the cfg(melstf_verif) view after genesis, every accepted batch, every seal and every block opening: the raw coin tree is partitioned into coin entries and count entries; for every covenant hash the count entry equals the number of coin entries, no count entry exists without coins, none exist before activation, and no unexplained entry exists. Non-trivial = history with >=1 pool settlement or proposer reward and >=1 spend; distinct by the sequence of coin roots.".to_string();
@@ -207,6 +315,10 @@ pub fn run(ctx: &Ctx) -> (Outcome, String, Option<bool>) {
 }
 
 pub fn replay(case: &serde_json::Value) -> Check {
+    if case.get("steps").is_some() && case.get("n").is_some() {
+        let c: CountWalk = serde_json::from_value(case.clone()).map_err(|e| crate::evidence::Violation::new("replay-format", e.to_string()))?;
+        return check_count_walk(&c, &mut Stats::default(), 200);
+    }
     if case.get("fans").is_some() {
         let c: BigSet = serde_json::from_value(case.clone()).map_err(|e| crate::evidence::Violation::new("replay-format", e.to_string()))?;
         return check_big_set(&c, &mut Stats::default(), 200);
